@@ -89,16 +89,6 @@ theorem write_in_place_not_shared (ls : List Label) (s : St) (h : run Cfg.code S
 
 /-! ### non-vacuity: reuse happens, and aliasing is real in the model -/
 
-/-- ESC `A` F (delivered as #A over array 0), ESC `B` `C` F (delivered as #B over array 1),
-    `Finish(#A)`, ESC `D` F with `Get()` returning #A's slice — with its stale `len = 1` —,
-    ESC (`clear`) `E`: the `E` is written in place into array 0. -/
-def reuseTrace : List Label :=
-  [.collect 65 1, .dispatch none,
-   .clear, .collect 66 0, .collect 67 0, .dispatch none,
-   .finish 1,
-   .clear, .collect 68 0, .dispatch (some 0),
-   .clear, .collect 69 0]
-
 /-- The run is enabled; the pooled slice came back with its stale length; array 0 — the array of the
     *finished* sequence #A, which read `[65]` — now starts with 69 (had the consumer kept using #A
     after `Finish`, it would see the change: the arrays really are shared); the two sequences still
@@ -120,6 +110,22 @@ example :
 /-- `write_in_place_not_shared`: a state with room in the parser's array is reached. -/
 example : ∃ s sl, run Cfg.code St.init [.collect 65 1, .dispatch none] = some s ∧ s.cur = some sl ∧
     sl.len < (cells s.heap sl.arr).length := ⟨_, _, rfl, rfl, by decide⟩
+
+/-! ### link to the id-only model of `Props/C08.lean` -/
+
+open VaxisModel.Model.ParserRun (Own) in
+/-- **The array model refines `Own`**: forgetting cells, lengths and snapshots (`abs`: `cur`, pooled
+    ids, held ids, next id = heap size), every run of the array model is a run of `Own` (labels
+    translated by `absRun`: an in-place `collect` is `collect false`, a growing one `collect true`,
+    `dispatch (some k)`/`finish k` name the array of the k-th pooled/delivered slice) — so
+    `delivered_immutable` and `OwnInv` of `Props/C08.lean` speak about these runs too. -/
+theorem refines_Own (ls : List Label) (s : St) (h : run Cfg.code St.init ls = some s) :
+    Own.run {} (absRun St.init ls) = some (abs s) :=
+  run_refines_Own ls St.init s Inv_init h
+
+example : absRun St.init reuseTrace =
+    [.collect true, .dispatch none, .clear, .collect false, .collect false, .dispatch none, .finish 0,
+     .clear, .collect false, .dispatch (some 0), .clear, .collect false] := by decide
 
 /-! ### the theorem is about aliasing: without the `Get()` it fails -/
 
